@@ -2095,6 +2095,7 @@ func wireTable() []wireKind {
 		{"set_async", wireOK(func(g *wireGen) *W { return g.genAsync(wireTSetAsync) })},
 		{"meter_mod", wireOK(func(g *wireGen) *W { return g.genMeterMod() })},
 	}...)
+	t = append(t, wireExtraKinds...)
 	return t
 }
 
